@@ -80,8 +80,10 @@ def gen(rng, tier):
         co = {'ast': cast, 'sched': [rng.random() < 0.6 for _ in range(n)]}
         fired['interleave'] = sum(co['sched'])
     cls = 'dt_on' if rng.random() < 0.7 else 'dt'
-    return {'vars': vars_, 'declared': declared, 'ast': ast, 'text': text, 'n': n, 'data': data, 'times': times,
-            'orders': orders, 'co': co, 'cls': cls, 'fired': fired}
+    sc = {'vars': vars_, 'declared': declared, 'ast': ast, 'text': text, 'n': n, 'data': data, 'times': times,
+          'orders': orders, 'co': co, 'cls': cls, 'fired': fired}
+    common.add_redelivery(rng, sc)
+    return sc
 
 
 def run(sc):
